@@ -1,15 +1,597 @@
-"""numpy, exactly the calls the library makes (trusted axioms T3)."""
+"""numpy, exactly the calls the library makes (trusted axioms T3).
+
+Two models:
+* NpArr  — small arrays of *concrete shape* holding numbers (possibly symbolic): the linear systems of
+           create_solution / create_solution_from (zeros, identity, roll, array, arithmetic, linalg.solve).
+* GridArr — the object array of wells of a plate: shape (R, C) with symbolic R, C (C13) or a concrete small shape
+           with explicit cells (plate-level obligations).
+"""
+import ast
+from fractions import Fraction
+
+import z3
+
 from .values import *   # noqa: F401,F403
 
 
+# ============================================================================================ NpArr
 class NpArr:
     py_type = 'ndarray'
     py_iterable = True
 
+    def __init__(self, data, fresh_=True):
+        # data: list of numbers (1-D) or list of lists (2-D)
+        self.data = data
+        self.fresh = fresh_
+
+    @property
+    def ndim(self):
+        return 2 if self.data and isinstance(self.data[0], list) else 1
+
+    @property
+    def shape(self):
+        if self.ndim == 2:
+            return (len(self.data), len(self.data[0]))
+        return (len(self.data),)
+
+    def __repr__(self):
+        return f"NpArr({self.data})"
+
+    def map1(self, interp, f):
+        if self.ndim == 2:
+            return NpArr([[f(x) for x in row] for row in self.data])
+        return NpArr([f(x) for x in self.data])
+
     @staticmethod
     def binop(interp, op, a, b, node):
-        raise Unsupported("numpy arithmetic (model not loaded)")
+        if isinstance(a, NpArr) and isinstance(b, NpArr):
+            if a.shape != b.shape:
+                if a.ndim == 2 and b.ndim == 1 and a.shape[1] == b.shape[0]:
+                    return NpArr([[interp.binop(op, x, y, node) for x, y in zip(row, b.data)] for row in a.data])
+                raise Raised('ValueError', getattr(node, 'lineno', None), 'operands could not be broadcast together',
+                             implicit=True)
+            if a.ndim == 2:
+                return NpArr([[interp.binop(op, x, y, node) for x, y in zip(r1, r2)] for r1, r2 in zip(a.data, b.data)])
+            return NpArr([interp.binop(op, x, y, node) for x, y in zip(a.data, b.data)])
+        if isinstance(a, NpArr):
+            if not (is_num(b) or isinstance(b, bool)):
+                raise Unsupported("array op non-number")
+            return a.map1(interp, lambda x: interp.binop(op, x, b, node))
+        if not (is_num(a) or isinstance(a, bool)):
+            raise Unsupported("non-number op array")
+        return b.map1(interp, lambda x: interp.binop(op, a, x, node))
+
+    # --- protocol
+    def sym_getitem(self, interp, k, node=None):
+        ln = getattr(node, 'lineno', None)
+        if isinstance(k, int):
+            try:
+                r = self.data[k]
+            except IndexError:
+                raise Raised('IndexError', ln, 'index out of bounds', implicit=True)
+            if isinstance(r, list):
+                return NpRow(self, k)
+            return r
+        if isinstance(k, SliceV):
+            if all(x is None or isinstance(x, int) for x in (k.start, k.stop, k.step)):
+                sub = self.data[slice(k.start, k.stop, k.step)]
+                return NpArr([list(r) if isinstance(r, list) else r for r in sub])
+            raise Unsupported("symbolic slice of a numeric array")
+        if isinstance(k, tuple) and len(k) == 2 and all(isinstance(x, int) for x in k):
+            try:
+                return self.data[k[0]][k[1]]
+            except IndexError:
+                raise Raised('IndexError', ln, 'index out of bounds', implicit=True)
+        raise Unsupported(f"numeric array index {k!r}")
+
+    def sym_setitem(self, interp, k, value, node=None):
+        ln = getattr(node, 'lineno', None)
+        if isinstance(k, int):
+            if not (-len(self.data) <= k < len(self.data)):
+                raise Raised('IndexError', ln, 'index out of bounds', implicit=True)
+            if self.ndim == 2:
+                if isinstance(value, NpArr):
+                    if value.ndim != 1 or len(value.data) != len(self.data[0]):
+                        raise Raised('ValueError', ln, 'could not broadcast input array', implicit=True)
+                    self.data[k] = list(value.data)
+                elif is_num(value):
+                    self.data[k] = [value] * len(self.data[0])
+                else:
+                    raise Unsupported("row store")
+            else:
+                if not is_num(value):
+                    raise Unsupported("element store of non-number")
+                self.data[k] = value
+            return
+        raise Unsupported(f"numeric array store at {k!r}")
+
+    def sym_iterate(self, interp, node=None):
+        if self.ndim == 2:
+            return [NpArr(list(r)) for r in self.data]
+        return list(self.data)
+
+    def sym_len(self, interp, node=None):
+        return len(self.data)
+
+    def sym_getattr(self, interp, attr, node=None):
+        if attr == 'shape':
+            return self.shape
+        if attr == 'size':
+            s = self.shape
+            return s[0] * (s[1] if len(s) > 1 else 1)
+        if attr == 'sum':
+            return BoundV(self, BuiltinV('ndarray.sum', lambda i, a, k, n: np_sum(i, [a[0]], k, n)))
+        if attr == 'round':
+            from .builtins_ import round_value
+            return BoundV(self, BuiltinV('ndarray.round',
+                                         lambda i, a, k, n: round_value(i, a[0], a[1] if len(a) > 1 else 0, n)))
+        if attr == 'flatten':
+            return BoundV(self, BuiltinV('ndarray.flatten', lambda i, a, k, n: NpArr(
+                [x for r in a[0].data for x in r] if a[0].ndim == 2 else list(a[0].data))))
+        raise Unsupported(f"ndarray.{attr}")
+
+    def sym_deepcopy(self, interp, memo):
+        return NpArr([list(r) if isinstance(r, list) else r for r in self.data])
+
+    def sym_sum(self, interp, start, node=None):
+        total = start
+        for x in self.sym_iterate(interp, node):
+            total = interp.binop(ast.Add(), total, x, node)
+        return total
+
+
+class NpRow:
+    """a[i] of a 2-D numeric array: a view (reads and row arithmetic only)."""
+    py_type = 'ndarray'
+    py_iterable = True
+
+    def __new__(cls, arr, i):
+        return NpArr(list(arr.data[i]))
+
+
+def np_sum(interp, args, kwargs, node):
+    a = args[0]
+    if isinstance(a, NpArr):
+        flat = [x for r in a.data for x in r] if a.ndim == 2 else list(a.data)
+        total = 0
+        for x in flat:
+            total = interp.binop(ast.Add(), total, x, node)
+        return total
+    if hasattr(a, 'sym_sum'):
+        return a.sym_sum(interp, 0, node)
+    from .builtins_ import b_sum
+    return b_sum(interp, args, kwargs, node)
+
+
+def np_zeros(interp, args, kwargs, node):
+    shape = args[0]
+    if isinstance(shape, int):
+        return NpArr([0] * shape)
+    if isinstance(shape, tuple) and all(isinstance(x, int) for x in shape):
+        if len(shape) == 1:
+            return NpArr([0] * shape[0])
+        if len(shape) == 2:
+            return NpArr([[0] * shape[1] for _ in range(shape[0])])
+    if isinstance(shape, tuple) and len(shape) == 2:
+        return GridNum(shape[0], shape[1], 0)
+    raise Unsupported("numpy.zeros of symbolic shape")
+
+
+def np_identity(interp, args, kwargs, node):
+    n = args[0]
+    if not isinstance(n, int):
+        raise Unsupported("numpy.identity of symbolic size")
+    return NpArr([[1 if i == j else 0 for j in range(n)] for i in range(n)])
+
+
+def np_roll(interp, args, kwargs, node):
+    a, k = args[0], args[1]
+    if isinstance(a, NpArr) and a.ndim == 1 and isinstance(k, int):
+        n = len(a.data)
+        if n == 0:
+            return NpArr([])
+        k %= n
+        return NpArr(a.data[-k:] + a.data[:-k] if k else list(a.data))
+    raise Unsupported("numpy.roll")
+
+
+def np_array(interp, args, kwargs, node):
+    src = args[0]
+    from . import builtins_ as B
+    if isinstance(src, NpArr):
+        return src.sym_deepcopy(interp, {})
+    items = B.iterate(interp, src, node)
+    if items and all(isinstance(x, (list, tuple)) for x in items):
+        rows = [list(x) for x in items]
+        if all(is_num(y) or isinstance(y, bool) for r in rows for y in r):
+            if len({len(r) for r in rows}) != 1:
+                raise Unsupported("ragged array")
+            return NpArr(rows)
+        if all(isinstance(y, Obj) for r in rows for y in r):
+            return GridArr.concrete(rows)
+        raise Unsupported("numpy.array of mixed content")
+    if all(is_num(x) or isinstance(x, bool) for x in items):
+        return NpArr(list(items))
+    if all(isinstance(x, GridArr) for x in items) and items:
+        # np.array(list(map(array.__getitem__, slices))): a stack of 1x1 views
+        if all(g.is_concrete() and g.shape_c == (1, 1) for g in items):
+            return GridStack([g.cells[0][0] for g in items], [g for g in items])
+        raise Unsupported("stack of symbolic views")
+    raise Unsupported("numpy.array of non-numeric content")
+
+
+def np_shape(interp, args, kwargs, node):
+    a = args[0]
+    if hasattr(a, 'sym_getattr'):
+        return a.sym_getattr(interp, 'shape', node)
+    raise Unsupported("numpy.shape")
+
+
+def np_size(interp, args, kwargs, node):
+    a = args[0]
+    if hasattr(a, 'sym_getattr'):
+        return a.sym_getattr(interp, 'size', node)
+    raise Unsupported("numpy.size")
+
+
+class LinalgV:
+    pass
+
+
+def np_solve(interp, args, kwargs, node):
+    """numpy.linalg.solve(A, b): the x with A x = b if det A != 0, LinAlgError otherwise (T3).
+    x is introduced as fresh reals constrained by the n equations (no closed form needed)."""
+    A, b = args[0], args[1]
+    ln = getattr(node, 'lineno', None)
+    if not (isinstance(A, NpArr) and isinstance(b, NpArr) and A.ndim == 2 and b.ndim == 1):
+        raise Unsupported("linalg.solve operands")
+    n = len(A.data)
+    if any(len(r) != n for r in A.data):
+        raise Raised('LinAlgError', ln, 'Last 2 dimensions of the array must be square', implicit=True)
+    if len(b.data) != n:
+        raise Raised('ValueError', ln, 'solve: mismatch in core dimension', implicit=True)
+    d = det([[real(x) for x in r] for r in A.data])
+    d = z3.simplify(d)
+    if not interp.decide(d != 0, f"det != 0 @{ln}"):
+        raise Raised('LinAlgError', ln, 'Singular matrix', implicit=True)
+    xs = [fresh('x', RS) for _ in range(n)]
+    for i in range(n):
+        interp.assume(sum((real(A.data[i][j]) * xs[j] for j in range(n)), z3.RealVal(0)) == real(b.data[i]))
+    return NpArr(xs)
+
+
+def det(M):
+    n = len(M)
+    if n == 1:
+        return M[0][0]
+    if n == 2:
+        return M[0][0] * M[1][1] - M[0][1] * M[1][0]
+    total = z3.RealVal(0)
+    for j in range(n):
+        minor = [r[:j] + r[j + 1:] for r in M[1:]]
+        term = M[0][j] * det(minor)
+        total = total + term if j % 2 == 0 else total - term
+    return total
+
+
+NP_FUNCS = {'zeros': np_zeros, 'identity': np_identity, 'roll': np_roll, 'array': np_array, 'sum': np_sum,
+            'shape': np_shape, 'size': np_size}
 
 
 def module_attr(interp, mod, attr, node):
-    raise Unsupported(f"numpy.{attr}")
+    if mod.name == 'numpy':
+        if attr in NP_FUNCS:
+            return BuiltinV('numpy.' + attr, NP_FUNCS[attr])
+        if attr == 'ndarray':
+            return TypeMarker('ndarray')
+        if attr == 'linalg':
+            return ModuleV('numpy.linalg')
+        if attr == 'vectorize':
+            return BuiltinV('numpy.vectorize', np_vectorize)
+        if attr == 'frompyfunc':
+            return BuiltinV('numpy.frompyfunc', np_frompyfunc)
+        raise Unsupported(f"numpy.{attr}")
+    if mod.name == 'numpy.linalg':
+        if attr == 'solve':
+            return BuiltinV('numpy.linalg.solve', np_solve)
+        if attr == 'LinAlgError':
+            return ExcClassV('LinAlgError')
+        raise Unsupported(f"numpy.linalg.{attr}")
+    raise Unsupported(f"module {mod.name}")
+
+
+# ============================================================================================ grids of wells
+class GridArr:
+    """Object array of wells.  Either abstract (symbolic shape R x C, only `shape` is known — enough for the
+    selector obligations of C13) or concrete (explicit small matrix of cells, possibly a view into a parent)."""
+    py_type = 'ndarray'
+    py_iterable = True
+
+    def __init__(self, R=None, C=None, cells=None, parent=None, index=None, fresh_=False):
+        self.R, self.C = R, C
+        self.cells = cells          # list of lists (concrete) or None (abstract)
+        self.parent = parent        # for views: (parent GridArr, list of (r, c) coordinates per cell)
+        self.index = index
+        self.fresh = fresh_
+
+    @staticmethod
+    def concrete(rows, fresh_=True):
+        g = GridArr(len(rows), len(rows[0]) if rows else 0, [list(r) for r in rows], fresh_=fresh_)
+        return g
+
+    def is_concrete(self):
+        return self.cells is not None
+
+    @property
+    def shape_c(self):
+        return (len(self.cells), len(self.cells[0]) if self.cells else 0)
+
+    def sym_getattr(self, interp, attr, node=None):
+        if attr == 'shape':
+            if self.is_concrete():
+                return self.shape_c
+            return (self.R, self.C)
+        if attr == 'size':
+            if self.is_concrete():
+                return self.shape_c[0] * self.shape_c[1]
+            return self.R * self.C
+        if attr == '__getitem__':
+            return BoundV(self, BuiltinV('ndarray.__getitem__', lambda i, a, k, n: a[0].sym_getitem(i, a[1], n)))
+        if attr == '__setitem__':
+            return BoundV(self, BuiltinV('ndarray.__setitem__', lambda i, a, k, n: a[0].sym_setitem(i, a[1], a[2], n)))
+        if attr == 'flatten':
+            return BoundV(self, BuiltinV('ndarray.flatten', lambda i, a, k, n: a[0].flat_list()))
+        raise Unsupported(f"ndarray.{attr} on a grid of wells")
+
+    def flat_list(self):
+        if not self.is_concrete():
+            raise Unsupported("flatten of an abstract grid")
+        return GridFlat([c for r in self.cells for c in r])
+
+    # --- indexing (basic slicing = Python slice semantics per axis; a *view*)
+    def _axis(self, interp, k, n, node):
+        """indices selected on an axis of length n (concrete) by an int or a slice with concrete bounds."""
+        ln = getattr(node, 'lineno', None)
+        if isinstance(k, bool):
+            k = int(k)
+        if isinstance(k, int):
+            if not (-n <= k < n):
+                raise Raised('IndexError', ln, 'index out of bounds', implicit=True)
+            return [k % n], True
+        if isinstance(k, SliceV):
+            vals = []
+            for x in (k.start, k.stop, k.step):
+                if x is not None and not isinstance(x, int):
+                    raise Unsupported("symbolic slice bound on a concrete grid")
+                vals.append(x)
+            if vals[2] == 0:
+                raise Raised('ValueError', ln, 'slice step cannot be zero', implicit=True)
+            return list(range(*slice(*vals).indices(n))), False
+        raise Raised('IndexError', ln, 'only integers and slices are valid indices', implicit=True)
+
+    def sym_getitem(self, interp, k, node=None):
+        if not self.is_concrete():
+            raise Unsupported("indexing an abstract grid")
+        R, C = self.shape_c
+        if not isinstance(k, tuple):
+            k = (k, SliceV(None, None, None))
+        if len(k) != 2:
+            raise Raised('IndexError', getattr(node, 'lineno', None), 'too many indices', implicit=True)
+        rows, rint = self._axis(interp, k[0], R, node)
+        cols, cint = self._axis(interp, k[1], C, node)
+        if rint and cint:
+            return self.cells[rows[0]][cols[0]]
+        if rint or cint:
+            raise Unsupported("1-D view of a grid")
+        return GridArr(len(rows), len(cols), [[self.cells[r][c] for c in cols] for r in rows],
+                       parent=self, index=[[(r, c) for c in cols] for r in rows], fresh_=self.fresh)
+
+    def sym_setitem(self, interp, k, value, node=None):
+        from .builtins_ import record_write
+        ln = getattr(node, 'lineno', None)
+        if not self.is_concrete():
+            raise Unsupported("store into an abstract grid")
+        R, C = self.shape_c
+        if not isinstance(k, tuple):
+            k = (k, SliceV(None, None, None))
+        rows, rint = self._axis(interp, k[0], R, node)
+        cols, cint = self._axis(interp, k[1], C, node)
+        tgt_shape = (len(rows), len(cols))
+        # value: a grid of the same shape, a nested list [[v]], or a single object (broadcast)
+        if isinstance(value, GridArr):
+            if not value.is_concrete():
+                raise Unsupported("store of abstract grid")
+            vs = value.shape_c
+            if vs != tgt_shape:
+                if vs == (1, 1):
+                    vals = [[value.cells[0][0]] * tgt_shape[1] for _ in range(tgt_shape[0])]
+                else:
+                    raise Raised('ValueError', ln, 'could not broadcast input array', implicit=True)
+            else:
+                vals = value.cells
+        elif isinstance(value, GridFlat) or isinstance(value, GridStack):
+            raise Raised('IndexError' if isinstance(value, GridFlat) else 'ValueError', ln,
+                         'shape mismatch storing a flat array into a 2-D selection', implicit=True)
+        elif isinstance(value, list):
+            if value and isinstance(value[0], list):
+                if (len(value), len(value[0])) == tgt_shape:
+                    vals = value
+                elif (len(value), len(value[0])) == (1, 1):
+                    vals = [[value[0][0]] * tgt_shape[1] for _ in range(tgt_shape[0])]
+                else:
+                    raise Raised('ValueError', ln, 'could not broadcast input array', implicit=True)
+            else:
+                raise Unsupported("1-D list store into a grid")
+        else:
+            vals = [[value] * tgt_shape[1] for _ in range(tgt_shape[0])]
+        self.write_cells(interp, [(r, c, vals[i][j]) for i, r in enumerate(rows) for j, c in enumerate(cols)], ln)
+
+    def write_cells(self, interp, triples, ln):
+        from .builtins_ import record_write
+        for r, c, v in triples:
+            if self.cells[r][c] is not v:
+                if not self.fresh:
+                    interp.writes.append((self, f'[{r},{c}]', ln, interp.call_stack[-1] if interp.call_stack else '?'))
+                self.cells[r][c] = v
+            if self.parent is not None:
+                pr, pc = self.index[r][c]
+                self.parent.write_cells(interp, [(pr, pc, v)], ln)
+
+    def sym_iterate(self, interp, node=None):
+        if not self.is_concrete():
+            raise Unsupported("iteration over an abstract grid")
+        return [GridFlat(list(r)) for r in self.cells]
+
+    def sym_deepcopy(self, interp, memo):
+        from .builtins_ import deep_copy
+        if not self.is_concrete():
+            g = GridArr(self.R, self.C, None, fresh_=True)
+            return g
+        return GridArr(self.R, self.C, [[deep_copy(interp, c, memo) for c in r] for r in self.cells], fresh_=True)
+
+    def sym_equals(self, interp, other):
+        return other is self
+
+    def sym_len(self, interp, node=None):
+        if self.is_concrete():
+            return len(self.cells)
+        return self.R
+
+
+class GridFlat:
+    """1-D array of wells (result of flatten())."""
+    py_type = 'ndarray'
+    py_iterable = True
+
+    def __init__(self, items):
+        self.items = list(items)
+
+    def sym_iterate(self, interp, node=None):
+        return list(self.items)
+
+    def sym_getattr(self, interp, attr, node=None):
+        if attr == 'shape':
+            return (len(self.items),)
+        if attr == 'size':
+            return len(self.items)
+        if attr == 'flatten':
+            return BoundV(self, BuiltinV('ndarray.flatten', lambda i, a, k, n: GridFlat(a[0].items)))
+        raise Unsupported(f"ndarray.{attr} on a flat array of wells")
+
+    def sym_getitem(self, interp, k, node=None):
+        if isinstance(k, int):
+            try:
+                return self.items[k]
+            except IndexError:
+                raise Raised('IndexError', getattr(node, 'lineno', None), 'index out of bounds', implicit=True)
+        raise Unsupported("flat array index")
+
+    def sym_setitem(self, interp, k, value, node=None):
+        if isinstance(k, int):
+            self.items[k] = value
+            return
+        raise Unsupported("flat array store")
+
+    def sym_len(self, interp, node=None):
+        return len(self.items)
+
+
+class GridStack(GridFlat):
+    """np.array([view, view, ...]).flatten(): copies of the selected cells (writes do not reach the plate)."""
+
+    def __init__(self, items, views):
+        super().__init__(items)
+        self.views = views
+
+
+class GridNum:
+    """numpy.zeros(shape) of a plate shape: numeric per-well array (flows); only what the trackers use."""
+    py_type = 'ndarray'
+
+    def __init__(self, R, C, fill):
+        self.R, self.C, self.fill = R, C, fill
+
+    def sym_getattr(self, interp, attr, node=None):
+        if attr == 'shape':
+            return (self.R, self.C)
+        raise Unsupported(f"numeric grid .{attr}")
+
+
+def np_vectorize(interp, args, kwargs, node):
+    f = args[0]
+    return VectorizedV(f, bool(kwargs.get('cache', False)), kwargs.get('otypes'))
+
+
+class VectorizedV:
+    """numpy.vectorize(f, cache=True | otypes=...)(A): f once per element in C order, new array of results.
+    Without cache/otypes numpy calls f one extra time on the first element (T3)."""
+
+    def __init__(self, f, cache, otypes):
+        self.f, self.cache, self.otypes = f, cache, otypes
+
+    def sym_call(self, interp, args, kwargs, node):
+        A = args[0]
+        if isinstance(A, Obj):
+            # 0-d: a single object
+            return interp.call(self.f, [A], {}, node)
+        if isinstance(A, GridArr):
+            if not A.is_concrete():
+                raise Unsupported("vectorize over an abstract grid")
+            if A.shape_c[0] * A.shape_c[1] == 0:
+                if self.otypes is None:
+                    raise Raised('ValueError', getattr(node, 'lineno', None),
+                                 'cannot call vectorize on size 0 inputs unless otypes is set', implicit=True)
+                return GridArr.concrete([[] for _ in A.cells])
+            if not self.cache and self.otypes is None:
+                interp.call(self.f, [A.cells[0][0]], {}, node)     # the extra probing call
+            out = [[interp.call(self.f, [c], {}, node) for c in r] for r in A.cells]
+            if all(is_num(x) or isinstance(x, bool) for r in out for x in r):
+                return NpArr(out)
+            return GridArr.concrete(out)
+        if isinstance(A, GridFlat):
+            if not self.cache and self.otypes is None and A.items:
+                interp.call(self.f, [A.items[0]], {}, node)
+            out = [interp.call(self.f, [c], {}, node) for c in A.items]
+            if all(is_num(x) or isinstance(x, bool) for x in out):
+                return NpArr(out)
+            return GridFlat(out)
+        raise Unsupported(f"vectorize over {type(A).__name__}")
+
+
+def np_frompyfunc(interp, args, kwargs, node):
+    f, nin, nout = args[0], args[1], args[2]
+    return FromPyFuncV(f, nin, nout)
+
+
+class FromPyFuncV:
+    """numpy.frompyfunc(f, 2, 2)(A, B): pairs elements in C order (broadcasting a size-1 operand)."""
+
+    def __init__(self, f, nin, nout):
+        self.f, self.nin, self.nout = f, nin, nout
+
+    def sym_call(self, interp, args, kwargs, node):
+        if self.nin != 2 or self.nout != 2 or len(args) != 2:
+            raise Unsupported("frompyfunc arity")
+        A, B = args
+        if isinstance(A, GridArr) and isinstance(B, GridArr) and A.is_concrete() and B.is_concrete():
+            if A.shape_c != B.shape_c:
+                raise Unsupported("frompyfunc broadcasting")
+            o1 = [[None] * A.shape_c[1] for _ in range(A.shape_c[0])]
+            o2 = [[None] * A.shape_c[1] for _ in range(A.shape_c[0])]
+            for i in range(A.shape_c[0]):
+                for j in range(A.shape_c[1]):
+                    r = interp.call(self.f, [A.cells[i][j], B.cells[i][j]], {}, node)
+                    o1[i][j], o2[i][j] = interp.iterate(r, node)
+            return (GridArr.concrete(o1), GridArr.concrete(o2))
+        if isinstance(A, GridFlat) and isinstance(B, GridFlat):
+            if len(A.items) != len(B.items):
+                raise Raised('ValueError', getattr(node, 'lineno', None), 'operands could not be broadcast together',
+                             implicit=True)
+            o1, o2 = [], []
+            for x, y in zip(A.items, B.items):
+                r = interp.call(self.f, [x, y], {}, node)
+                a, b = interp.iterate(r, node)
+                o1.append(a)
+                o2.append(b)
+            return (GridFlat(o1), GridFlat(o2))
+        raise Unsupported("frompyfunc operands")
